@@ -114,3 +114,13 @@ func verifPool(ev, pool string, obj interface{}) {
 		h(VerifPoolEvent{Ev: ev, Pool: pool, Obj: obj})
 	}
 }
+
+// VerifIterState exposes the position of an iterator: next word to read,
+// words to skip first, tag and payload of the current word, and the length of
+// the tape slice the iterator is restricted to.
+func VerifIterState(i *Iter) (off, addNext int, t Tag, cur uint64, lim int) {
+	return i.off, i.addNext, i.t, i.cur, len(i.tape.Tape)
+}
+
+// VerifObjectState exposes the position of an Object view.
+func VerifObjectState(o *Object) (off, lim int) { return o.off, len(o.tape.Tape) }
